@@ -161,16 +161,22 @@ def gen_instance(rng, sw=None, thorough=False):
         students[rng.randrange(n1)] = [[rng.randint(1, n2)]]
     zero_cap = sw.get('zero_cap', rng.random() < 0.3)
     lowq = sw.get('lowq', rng.random() < 0.4)
+    # with many students, capacities sometimes scale with them, so that one
+    # project / lecturer can hold many assignees (long listing lines)
+    roomy = n1 >= 8 and rng.random() < 0.5
+    pcap = max(3, n1) if roomy else 3
+    lcap = max(4, n1) if roomy else 4
     projects = []
     for j in range(n2):
-        uq = rng.randint(0 if zero_cap and rng.random() < 0.4 else 1, 3)
+        uq = rng.randint(0 if zero_cap and rng.random() < 0.4 else 1, pcap)
         lq = rng.randint(0, uq) if lowq and rng.random() < 0.5 else 0
         lec = rng.randint(1, n3) if na == 3 else j + 1
         projects.append({'lq': lq, 'uq': uq, 'lec': lec})
     lecturers = []
     if na == 3:
         for k in range(n3):
-            uq = rng.randint(0 if zero_cap and rng.random() < 0.4 else 1, 4)
+            uq = rng.randint(0 if zero_cap and rng.random() < 0.4 else 1,
+                             lcap)
             t = rng.randint(0, uq)
             lq = rng.randint(0, t) if lowq and rng.random() < 0.4 else 0
             lecturers.append({'lq': lq, 't': t, 'uq': uq})
